@@ -27,14 +27,76 @@ func otherName(k int64) int64 { return (k + 1 + 2) % nNames }
 func nameOf(s string) int64 { return nameKey(s) }
 
 func (g *Gen) scenario(p *Pool) []Op {
-	switch g.r.below(7) {
+	switch g.r.below(9) {
 	case 0, 1:
 		return g.scBusStatic(p)
 	case 2, 3:
 		return g.scGhost(p)
+	case 4, 5:
+		return g.scMultiBus(p)
 	default:
 		return g.scSizes(p)
 	}
+}
+
+// multiBus: a node with interfaces on two buses; a new name / id that is free on the bus of the
+// lower-numbered interface and taken on the bus of the higher-numbered one must be refused and
+// must leave the first bus untouched
+func (g *Gen) scMultiBus(p *Pool) []Op {
+	if len(p.of(KBus)) < 2 {
+		return nil
+	}
+	var n int64
+	for _, h := range p.of(KNode) {
+		if len(p.node(int64(h)).Interfaces()) >= 2 {
+			n = int64(h)
+		}
+	}
+	var ops []Op
+	detach := func(ni *acme.NodeInterface) {
+		if b := ni.ParentBus(); b != nil {
+			ops = append(ops, op("BusRemoveNodeInterface", int64(p.byID[b.EntityID()]), int64(p.byID[ni.Node().EntityID()])))
+		}
+	}
+	if n == 0 {
+		return nil
+	}
+	ints := p.node(n).Interfaces()
+	ia, ib := handleOfIface(p, ints[0]), handleOfIface(p, ints[1])
+	var n3 int64
+	for _, h := range p.of(KNode) {
+		if int64(h) != n && len(p.node(int64(h)).Interfaces()) >= 1 {
+			n3 = int64(h)
+		}
+	}
+	if n3 == 0 {
+		return nil
+	}
+	i3 := handleOfIface(p, p.node(n3).Interfaces()[0])
+	bs := p.of(KBus)
+	b1 := int64(bs[g.r.below(len(bs))])
+	b2 := b1
+	for b2 == b1 {
+		b2 = int64(bs[g.r.below(len(bs))])
+	}
+	for _, ni := range ints {
+		detach(ni)
+	}
+	for _, ni := range p.node(n3).Interfaces() {
+		detach(ni)
+	}
+	x := int64(1 + g.r.below(3))
+	ops = append(ops,
+		op("BusRemoveAllNodeInterfaces", b1), op("BusRemoveAllNodeInterfaces", b2),
+		op("NodeUpdateName", n, 0), op("NodeUpdateID", n, 0), op("NodeUpdateName", n3, x), op("NodeUpdateID", n3, x),
+		op("BusAddNodeInterface", b1, ia), op("BusAddNodeInterface", b2, ib), op("BusAddNodeInterface", b2, i3),
+		op("NodeUpdateID", n, x),   // taken on the second bus only
+		op("NodeUpdateName", n, x), // taken on the second bus only
+		op("NodeUpdateID", n3, 0), op("NodeUpdateName", n3, 0), // taken by n on the same bus
+		op("NodeUpdateID", n, (x%3)+1), op("NodeUpdateName", n, (x%3)+1),
+		op("NodeUpdateID", n3, 0), op("NodeUpdateName", n3, 0), // released: accepted now
+	)
+	return ops
 }
 
 func handleOfIface(p *Pool, ni *acme.NodeInterface) int64 { return int64(p.byIface[ni]) }
